@@ -295,7 +295,7 @@ func engineFor(prop string, t *testing.T) Engine {
 	switch prop {
 	case "C01", "C02", "C16":
 		return seqEngine{}
-	case "C03", "C04", "C06", "C09":
+	case "C03", "C04", "C09":
 		return crashEngine{}
 	case "C08", "C19":
 		return damageEngine{}
